@@ -5,6 +5,8 @@
 \*   {"dev"}               = every step at which the model records a deviation or a violation
 \*                           (TLC's counterexamples to the strict property, as behaviours)
 \*   all action names      = one behaviour per (state, action) transition
+\* With VIEW blank and MAXHIST = n (and XCON = QueryLast) the run enumerates ALL histories of at most n
+\* steps instead (used where the ORDER of steps matters although it leads to the same model state).
 \* With -simulate, EMITACTS = {"end"} prints each random history once, at length MAXHIST.
 CONSTANTS
   IPs = @@IPS@@
@@ -29,6 +31,6 @@ CONSTANTS
 INIT Init
 NEXT Next
 @@VIEW@@
-CONSTRAINT Bounded
+CONSTRAINT Bounded @@XCON@@
 INVARIANTS TypeOK
 CHECK_DEADLOCK FALSE
